@@ -29,6 +29,9 @@ a fresh address (`setFresh`), a statement that writes INTO the existing object k
   attribute setters (`polarization=`, `dimension=`, `moment=`, `pixel=`)  new array
   style           `self.style` creates the style object on first access and flushes `_style_kwargs` into it;
                   `style.label = …`, `style.update(…)` write into the style object
+  orientation setter `_orientation = R.from_quat(oriQ)` new; `_position = pad_slice_path(oriQ, _position)`: a new array
+                  when it is padded, the SAME array (or a view of it) when it is sliced or has the length already;
+                  then per child `child.position = …` (position setter) and `child.rotate(…, anchor=_position, start=0)`
   copy(**kwargs)  `deepcopy(self)` with `_parent` cut: every cell reachable from the subtree is cloned onto
                   fresh addresses; then, if the original has a style object or pending style kwargs, `self.style`
                   is evaluated (this REALISES THE ORIGINAL'S lazy style — a write to the original that no public
@@ -38,6 +41,7 @@ Paths are computed by Model/Path.lean (`applyMove`, `applyRotation`) — the fun
 -/
 import MagpyVerif.Model.Copy
 import MagpyVerif.Model.Path
+import MagpyVerif.Model.Tree
 
 namespace MagpyVerif
 
@@ -59,6 +63,9 @@ def count : Nat := 8
 /-- array attribute number `k` (0 polarization, 1 dimension, 2 moment, 3 pixel) -/
 def arr : Nat → Option Slot
   | 0 => some a0 | 1 => some a1 | 2 => some a2 | 3 => some a3 | _ => none
+/-- the slots of the array attributes -/
+def isArr : Slot → Bool
+  | a0 => true | a1 => true | a2 => true | a3 => true | _ => false
 end Slot
 
 /-- the part of a style that is modelled: the label and integer-valued properties (key ↦ value) -/
@@ -209,6 +216,24 @@ def setPos : Nat → AForest → Nat → List AVec → AForest
       let cp := padSlice inp.length (s.posOf c)
       setPos k s c (List.zipWith (· + ·) inp (List.zipWith (· - ·) cp oldp))) s1
 
+/-- `obj.orientation = inp` (validated, non-empty; `None` arrives as `[1]`): a new Rotation; the position path is
+edge-padded (new array) or end-sliced / kept (same array); then every child gets the padded / sliced position path
+through its position setter and is rotated by `new * old⁻¹` about the object's position path from index 0 on
+(`self.orientation` / `np.squeeze` hand a length-1 stack on as a single rotation, `Node.squeezeRot`) -/
+def setOri (s : AForest) (x : Nat) (inp : List ARot) : AForest :=
+  let oldPos := s.posOf x
+  let newPos := padSlice inp.length oldPos
+  let t := Node.squeezeRot (List.zipWith (fun a b => a * b⁻¹) inp (padSlice inp.length (s.oriOf x)))
+  let s1 := s.setFresh x .ori (.rots inp)
+  let s2 := if oldPos.length < inp.length then s1.setFresh x .pos (.vecs newPos) else s1.write x .pos (.vecs newPos)
+  (s.f.children x).foldl (fun s c =>
+    (setPos (s.f.n + 1) s c (padSlice newPos.length (s.posOf c))).rotate c t (some (.vector newPos)) (some 0)) s2
+
+/-- the value of an `orientation` argument: `None` is the unit rotation (a path of length 1) -/
+def oriArg : Option (List ARot) → List ARot
+  | none => [1]
+  | some l => l
+
 /-! ### attribute and style writes -/
 
 def setScalList (l : List (Nat × Int)) (k : Nat) (v : Int) : List (Nat × Int) :=
@@ -223,16 +248,119 @@ def setStyle (s : AForest) (i : Nat) (g : SData → SData) : AForest :=
   let s1 := s.realise i
   s1.write i .style (.style (g (s1.styleView i)))
 
-/-! ### copy -/
+/-! ### creation -/
 
-/-- keyword arguments of `copy(**kwargs)` -/
+structure Spec where
+  kind : Kind
+  cls : Nat
+  pos : List AVec
+  arrs : List (Slot × List Int)
+  scal : List (Nat × Int)
+  skw : SData
+
+/-- attributes of a newly constructed object `i` -/
+def initNode (s : AForest) (i : Nat) (sp : Spec) : AForest :=
+  let s1 : AForest := { s with na := upd s.na i { NodeA.blank sp.cls with scal := sp.scal, skw := sp.skw } }
+  let s2 := (s1.setFresh i .pos (.vecs sp.pos)).setFresh i .ori (.rots (sp.pos.map fun _ => (1 : ARot)))
+  let s3 := sp.arrs.foldl (fun t e => t.setFresh i e.1 (.ints e.2)) s2
+  if sp.kind = .coll then s3.setFresh i .kids .list else s3
+
+def init (specs : List Spec) : AForest :=
+  let s0 : AForest := { f := Forest.init (specs.map (·.kind)), na := fun _ => NodeA.blank 0,
+                        heap := fun _ => .free, next := 0 }
+  (List.range specs.length).foldl (fun s i =>
+    match specs[i]? with
+    | some sp => s.initNode i sp
+    | none => s) s0
+
+def collSpec : Spec := { kind := .coll, cls := 5, pos := [(0 : AVec)], arrs := [], scal := [], skw := SData.empty }
+
+/-! ### keyword arguments of `copy(**kwargs)` -/
+
+/-- attribute keywords: `position`, `orientation` (`none` = `None`), the array attributes, the scalar attributes,
+`style_label`, `style_<property>` -/
 inductive Ov where
   | pos (p : List AVec)
+  | ori (r : Option (List ARot))
   | arr (sl : Slot) (v : List Int)
   | scal (k : Nat) (v : Int)
   | label (l : List Char)
   | sprop (k : Nat) (v : Int)
   deriving Repr
+
+/-- any keyword: an attribute keyword, `parent=` (`none` = `None`), `children=`, or a non-style keyword whose value
+the setter rejects (`position="bad"`) -/
+inductive Kw where
+  | attr (ov : Ov)
+  | parent (p : Option Nat)
+  | children (objs : List Nat)
+  | bad
+  deriving Repr
+
+/-- the objects a keyword names -/
+def Kw.named : Kw → List Nat
+  | .parent p => p.toList
+  | .children objs => objs
+  | _ => []
+
+end AForest
+
+/-! ### histories -/
+
+inductive AOp where
+  | tree (op : FOp)
+  | move (x : Nat) (inp : PathIn AVec) (start : Option Int)
+  | rotate (x : Nat) (rot : PathIn ARot) (anchor : Option (PathIn AVec)) (start : Option Int)
+  | setPos (x : Nat) (p : List AVec)
+  /-- `obj.orientation = r` (`none` = `None`) -/
+  | setOri (x : Nat) (r : Option (List ARot))
+  | setArr (x : Nat) (sl : Slot) (v : List Int)
+  | setScal (x : Nat) (k : Nat) (v : Int)
+  | setLabel (x : Nat) (l : List Char)
+  | setProp (x : Nat) (k : Nat) (v : Int)
+  /-- reading `obj.style` (also done by `repr(obj)`, hence by the message of every rejected add / remove) -/
+  | touchStyle (x : Nat)
+  | copy (o : Nat) (kw : List AForest.Kw)
+
+namespace AForest
+open Forest (upd)
+
+/-- the collection whose `_children` list object a tree operation replaces when it is accepted -/
+def newList : FOp → Option Nat
+  | .setChildren c _ => some c
+  | .setTyped c _ _ => some c
+  | _ => none
+
+/-- one operation other than `copy`; second component: accepted?  Operations on objects that do not exist are
+refused. -/
+def stepBase (s : AForest) : AOp → AForest × Bool
+  | .tree op =>
+    let r := s.f.step op
+    let s1 : AForest := { s with f := r.1 }
+    -- `a + b` created a new Collection (default position, unit orientation, no style)
+    if r.1.n = s.f.n + 1 then (s1.initNode s.f.n collSpec, r.2)
+    else
+      -- an ACCEPTED children / sources / sensors / collections assignment installs a new `_children` list object
+      match (if r.2 then newList op else none) with
+      | some c => (s1.setFresh c .kids .list, r.2)
+      | none => (s1, r.2)
+  | .move x inp start => if x < s.f.n then (s.move x inp start, true) else (s, false)
+  | .rotate x rot anchor start => if x < s.f.n then (s.rotate x rot anchor start, true) else (s, false)
+  | .setPos x p => if x < s.f.n && !p.isEmpty then (setPos (s.f.n + 1) s x p, true) else (s, false)
+  | .setOri x r => if x < s.f.n && !(oriArg r).isEmpty then (s.setOri x (oriArg r), true) else (s, false)
+  | .setArr x sl v =>
+    if x < s.f.n && (sl.isArr && (s.intsOf x sl).isSome) then (s.setFresh x sl (.ints v), true) else (s, false)
+  | .setScal x k v =>
+    if x < s.f.n && (s.na x).scal.any (fun e => e.1 = k) then
+      (s.setMeta x (setScalList (s.na x).scal k v) (s.na x).skw, true)
+    else (s, false)
+  | .setLabel x l => if x < s.f.n then (s.setStyle x (fun d => { d with label := some l }), true) else (s, false)
+  | .setProp x k v =>
+    if x < s.f.n then (s.setStyle x (fun d => { d with props := SData.setProp d.props k v }), true) else (s, false)
+  | .touchStyle x => if x < s.f.n then (s.realise x, true) else (s, false)
+  | .copy _ _ => (s, false)
+
+/-! ### copy -/
 
 /-- `deepcopy(self)` with `_parent` cut: tree as in `Forest.copy`; the clone of the `k`-th subtree node takes the
 block of `Slot.count` addresses starting at `next + Slot.count * k`, one per slot the original holds, with the
@@ -263,11 +391,15 @@ def labelStep (s0 s : AForest) (o : Nat) : AForest :=
     s1.setStyle s0.f.n (fun d => { d with label := lab })
   else s
 
-/-- `setattr(obj_copy, k, v)` for a non-style keyword -/
+/-- `setattr(obj_copy, k, v)` for an attribute keyword with a value the setter accepts (a style keyword does nothing
+here; a rejected value is skipped — `copyKwG` is the function that also models the raise) -/
 def applyOv (s : AForest) (root : Nat) : Ov → AForest
   | .pos p => if p.isEmpty then s else setPos (s.f.n + 1) s root p
-  | .arr sl v => if (s.intsOf root sl).isSome then s.setFresh root sl (.ints v) else s
-  | .scal k v => s.setMeta root (setScalList (s.na root).scal k v) (s.na root).skw
+  | .ori r => if (oriArg r).isEmpty then s else s.setOri root (oriArg r)
+  | .arr sl v => if sl.isArr && (s.intsOf root sl).isSome then s.setFresh root sl (.ints v) else s
+  | .scal k v =>
+    if (s.na root).scal.any (fun e => e.1 = k) then s.setMeta root (setScalList (s.na root).scal k v) (s.na root).skw
+    else s
   | .label _ => s
   | .sprop _ _ => s
 
@@ -278,90 +410,60 @@ def styleKw (kw : List Ov) : SData :=
     | .sprop k v => { d with props := SData.setProp d.props k v }
     | _ => d) SData.empty
 
-/-- `obj.copy(**kwargs)`; the copy is object `s.f.n` -/
+/-- `obj.copy(**kwargs)` with attribute keywords whose values are accepted; the copy is object `s.f.n` -/
 def copyKw (s : AForest) (o : Nat) (kw : List Ov) : AForest :=
   let s1 := labelStep s (s.copy0 o) o
   let s2 := kw.foldl (fun t ov => applyOv t s.f.n ov) s1
   if (styleKw kw).nonempty then s2.setStyle s.f.n (fun d => d.update (styleKw kw)) else s2
 
-/-! ### creation -/
+/-- the setter operation behind a non-style keyword (`setattr(obj_copy, k, v)`); `none` for a style keyword -/
+def kwOp (root : Nat) : Kw → Option AOp
+  | .attr (.pos p) => some (.setPos root p)
+  | .attr (.ori r) => some (.setOri root r)
+  | .attr (.arr sl v) => some (.setArr root sl v)
+  | .attr (.scal k v) => some (.setScal root k v)
+  | .attr (.label _) => none
+  | .attr (.sprop _ _) => none
+  | .parent p => some (.tree (.setParent root p))
+  | .children objs => some (.tree (.setChildren root objs))
+  | .bad => some (.tree .rejected)
 
-structure Spec where
-  kind : Kind
-  cls : Nat
-  pos : List AVec
-  arrs : List (Slot × List Int)
-  scal : List (Nat × Int)
-  skw : SData
+/-- one turn of `for k, v in kwargs.items()`: nothing more happens once a setter has raised -/
+def kwStep (root : Nat) (r : AForest × Bool) (kw : Kw) : AForest × Bool :=
+  if r.2 then (match kwOp root kw with | some op => r.1.stepBase op | none => r) else r
 
-/-- attributes of a newly constructed object `i` -/
-def initNode (s : AForest) (i : Nat) (sp : Spec) : AForest :=
-  let s1 : AForest := { s with na := upd s.na i { NodeA.blank sp.cls with scal := sp.scal, skw := sp.skw } }
-  let s2 := (s1.setFresh i .pos (.vecs sp.pos)).setFresh i .ori (.rots (sp.pos.map fun _ => (1 : ARot)))
-  let s3 := sp.arrs.foldl (fun t e => t.setFresh i e.1 (.ints e.2)) s2
-  if sp.kind = .coll then s3.setFresh i .kids .list else s3
+/-- the attribute keywords of a keyword list -/
+def attrs (kws : List Kw) : List Ov := kws.filterMap (fun kw => match kw with | .attr ov => some ov | _ => none)
 
-def init (specs : List Spec) : AForest :=
-  let s0 : AForest := { f := Forest.init (specs.map (·.kind)), na := fun _ => NodeA.blank 0,
-                        heap := fun _ => .free, next := 0 }
-  (List.range specs.length).foldl (fun s i =>
-    match specs[i]? with
-    | some sp => s.initNode i sp
-    | none => s) s0
+/-- `obj.copy(**kwargs)`, any keywords; the copy is object `s.f.n`.  Deep copy, label, then the non-style keywords
+through their setters in keyword order, then ONE `style.update` with the style keywords.  Second component `false`:
+a setter raised — the loop stops there, the style keywords are not applied, `copy` raises; the objects made by the
+deep copy stay in the state (they exist; whether anything still refers to them is a theorem, Props/C18) -/
+def copyKwG (s : AForest) (o : Nat) (kws : List Kw) : AForest × Bool :=
+  let s1 := labelStep s (s.copy0 o) o
+  let r := kws.foldl (kwStep s.f.n) (s1, true)
+  if r.2 && (styleKw (attrs kws)).nonempty then
+    (r.1.setStyle s.f.n (fun d => d.update (styleKw (attrs kws))), true)
+  else r
 
-def collSpec : Spec := { kind := .coll, cls := 5, pos := [(0 : AVec)], arrs := [], scal := [], skw := SData.empty }
+/-- the assignment that a keyword stands for, as an operation on the finished plain copy `root`:
+`twin.<attr> = v`, `twin.style.label = v`, `twin.style.<property> = v` -/
+def assignOp (root : Nat) : Kw → AOp
+  | .attr (.label l) => .setLabel root l
+  | .attr (.sprop k v) => .setProp root k v
+  | kw => match kwOp root kw with | some op => op | none => .tree .rejected
 
-end AForest
-
-/-! ### histories -/
-
-inductive AOp where
-  | tree (op : FOp)
-  | move (x : Nat) (inp : PathIn AVec) (start : Option Int)
-  | rotate (x : Nat) (rot : PathIn ARot) (anchor : Option (PathIn AVec)) (start : Option Int)
-  | setPos (x : Nat) (p : List AVec)
-  | setArr (x : Nat) (sl : Slot) (v : List Int)
-  | setScal (x : Nat) (k : Nat) (v : Int)
-  | setLabel (x : Nat) (l : List Char)
-  | setProp (x : Nat) (k : Nat) (v : Int)
-  /-- reading `obj.style` (also done by `repr(obj)`, hence by the message of every rejected add / remove) -/
-  | touchStyle (x : Nat)
-  | copy (o : Nat) (kw : List AForest.Ov)
-
-namespace AForest
-
-/-- the collection whose `_children` list object a tree operation replaces when it is accepted -/
-def newList : FOp → Option Nat
-  | .setChildren c _ => some c
-  | .setTyped c _ _ => some c
-  | _ => none
-
-/-- one operation; second component: accepted?  Operations on objects that do not exist are refused. -/
+/-- one operation; second component: accepted? -/
 def step (s : AForest) : AOp → AForest × Bool
-  | .tree op =>
-    let r := s.f.step op
-    let s1 : AForest := { s with f := r.1 }
-    -- `a + b` created a new Collection (default position, unit orientation, no style)
-    if r.1.n = s.f.n + 1 then (s1.initNode s.f.n collSpec, r.2)
-    else
-      -- an ACCEPTED children / sources / sensors / collections assignment installs a new `_children` list object
-      match (if r.2 then newList op else none) with
-      | some c => (s1.setFresh c .kids .list, r.2)
-      | none => (s1, r.2)
-  | .move x inp start => if x < s.f.n then (s.move x inp start, true) else (s, false)
-  | .rotate x rot anchor start => if x < s.f.n then (s.rotate x rot anchor start, true) else (s, false)
-  | .setPos x p => if x < s.f.n && !p.isEmpty then (setPos (s.f.n + 1) s x p, true) else (s, false)
-  | .setArr x sl v =>
-    if x < s.f.n && (s.intsOf x sl).isSome then (s.setFresh x sl (.ints v), true) else (s, false)
-  | .setScal x k v =>
-    if x < s.f.n && (s.na x).scal.any (fun e => e.1 = k) then
-      (s.setMeta x (setScalList (s.na x).scal k v) (s.na x).skw, true)
-    else (s, false)
-  | .setLabel x l => if x < s.f.n then (s.setStyle x (fun d => { d with label := some l }), true) else (s, false)
-  | .setProp x k v =>
-    if x < s.f.n then (s.setStyle x (fun d => { d with props := SData.setProp d.props k v }), true) else (s, false)
-  | .touchStyle x => if x < s.f.n then (s.realise x, true) else (s, false)
-  | .copy o kw => if o < s.f.n then (s.copyKw o kw, true) else (s, false)
+  | .copy o kw => if o < s.f.n then s.copyKwG o kw else (s, false)
+  | op => s.stepBase op
+
+/-- "a plain copy, then the values assigned one after the other": the assignments of a keyword list, in keyword order,
+as operations on object `root` of state `t`; nothing more happens once one has raised -/
+def assignStep (root : Nat) (r : AForest × Bool) (kw : Kw) : AForest × Bool :=
+  if r.2 then r.1.step (assignOp root kw) else r
+
+def assignRun (root : Nat) (kws : List Kw) (t : AForest) : AForest × Bool := kws.foldl (assignStep root) (t, true)
 
 /-- the objects an operation names -/
 def mentions : AOp → List Nat
@@ -375,12 +477,13 @@ def mentions : AOp → List Nat
   | .move x _ _ => [x]
   | .rotate x _ _ _ => [x]
   | .setPos x _ => [x]
+  | .setOri x _ => [x]
   | .setArr x _ _ => [x]
   | .setScal x _ _ => [x]
   | .setLabel x _ => [x]
   | .setProp x _ _ => [x]
   | .touchStyle x => [x]
-  | .copy o _ => [o]
+  | .copy o kw => o :: kw.flatMap Kw.named
 
 end AForest
 end MagpyVerif
